@@ -49,12 +49,13 @@ type specQuery struct {
 
 // c10Leaks scans the file for plaintext needles (literal, and hex encoded).
 func c10Leaks(d *secDoc) (string, string) {
+	lower := bytes.ToLower(d.data)
 	for _, n := range d.needles {
 		if bytes.Contains(d.data, n) {
 			return "C10-plaintext-visible", fmt.Sprintf("plaintext %q is visible in the output", n)
 		}
 		hx := []byte(hex.EncodeToString(n))
-		if bytes.Contains(bytes.ToLower(d.data), hx) {
+		if bytes.Contains(lower, hx) {
 			return "C10-plaintext-visible-hex", fmt.Sprintf("plaintext %q is visible hex encoded", n)
 		}
 	}
